@@ -432,6 +432,10 @@ func (clnt *Clnt) FidAlloc() *Fid {
 func (clnt *Clnt) NewFcall() *Fcall {
 	select {
 	case tc := <-clnt.tchan:
+		// allocated before the Rversion lowered the msize
+		if msize := int(atomic.LoadUint32(&clnt.Msize)); len(tc.Buf) > msize {
+			tc.Buf = tc.Buf[:msize]
+		}
 		return tc
 	default:
 	}
